@@ -110,25 +110,16 @@ def install():
     x25519.X25519PrivateKey.generate = staticmethod(x25519_generate)
     x448.X448PrivateKey.generate = staticmethod(x448_generate)
 
-    orders = {'secp256r1': ec.SECP256R1, 'secp384r1': ec.SECP384R1,
-              'secp521r1': ec.SECP521R1}
-    _ord = {
-        'secp256r1': 0xffffffff00000000ffffffffffffffffbce6faada7179e84f3b9cac2fc632551,
-        'secp384r1': 0xffffffffffffffffffffffffffffffffffffffffffffffffc7634d81f4372ddf581a0db248b0a77aecec196accc52973,
-        'secp521r1': 0x1fffffffffffffffffffffffffffffffffffffffffffffffffffffffffffffffffffa51868783bf2f966b7fcc0148f709a5d03bb5c9b8899c47aebb6fb71e91386409,
-    }
-    del orders
-
     real_ec_generate = ec.generate_private_key
 
     def ec_generate(curve, backend=None):
-        n = _ord.get(curve.name)
-
-        if n is None or _state['drbg'] is None:
+        if _state['drbg'] is None:
             return real_ec_generate(curve)
 
-        d = 1 + int.from_bytes(_urandom(n.bit_length() // 8 + 8),
-                               'big') % (n - 1)
+        # any d in [1, 2^(bits-8)] is below the group order of every
+        # curve asyncssh uses; good enough for a simulation
+        bits = curve.key_size - 8
+        d = 1 + int.from_bytes(_urandom(bits // 8 + 8), 'big') % (1 << bits)
         return ec.derive_private_key(d, curve)
 
     ec.generate_private_key = ec_generate
@@ -148,6 +139,65 @@ def install():
             x, dh.DHPublicNumbers(y, self._pn)).private_key()
 
     a_dh.DH.__init__ = dh_init
+
+    # -- RSA key exchange: transient key and OAEP seed -------------------------
+    import hashlib as _hl
+    from asyncssh.crypto import rsa as a_rsa
+    real_generate = kex_rsa.generate_private_key
+    _trans = {}
+
+    def trans_generate(alg_name, *args, **kwargs):
+        size = kwargs.get('key_size')
+
+        if _state['drbg'] is None or alg_name != 'ssh-rsa' or \
+                size not in (1024, 2048):
+            return real_generate(alg_name, *args, **kwargs)
+
+        if size not in _trans:
+            import os as _os
+            _trans[size] = asyncssh.read_private_key(_os.path.join(
+                _os.path.dirname(_os.path.abspath(__file__)), 'keys',
+                'trans_rsa_%d' % size))
+
+        return _trans[size]
+
+    kex_rsa.generate_private_key = trans_generate
+
+    def _mgf1(seed, n, hname):
+        out = b''
+        c = 0
+
+        while len(out) < n:
+            out += _hl.new(hname, seed + c.to_bytes(4, 'big')).digest()
+            c += 1
+
+        return out[:n]
+
+    real_encrypt = a_rsa.RSAPublicKey.encrypt
+
+    def rsa_encrypt(self, data, hash_name):
+        if _state['drbg'] is None:
+            return real_encrypt(self, data, hash_name)
+
+        nums = self.pyca_key.public_numbers()
+        k = (nums.n.bit_length() + 7) // 8
+        hlen = _hl.new(hash_name).digest_size
+
+        if len(data) > k - 2 * hlen - 2:
+            return None
+
+        lhash = _hl.new(hash_name, b'').digest()
+        db = lhash + bytes(k - len(data) - 2 * hlen - 2) + b'\x01' + data
+        seed = _urandom(hlen)
+        mdb = bytes(a ^ b for a, b in zip(db, _mgf1(seed, k - hlen - 1,
+                                                    hash_name)))
+        mseed = bytes(a ^ b for a, b in zip(seed, _mgf1(mdb, hlen,
+                                                        hash_name)))
+        em = b'\x00' + mseed + mdb
+        return pow(int.from_bytes(em, 'big'), nums.e,
+                   nums.n).to_bytes(k, 'big')
+
+    a_rsa.RSAPublicKey.encrypt = rsa_encrypt
 
     # -- deterministic ECDSA nonces ------------------------------------------
     real_sign = a_ec.ECDSAPrivateKey.sign
